@@ -281,12 +281,12 @@ func GenFile(rng *rand.Rand, minBlocks int, allowBad bool) *File {
 	if !f.Header && len(f.Items) > 0 && f.Items[0].N == 0 {
 		f.Items[0].N = 1
 	}
-	if allowBad {
+	if allowBad && len(f.Items) >= 2 { // the first block stays readable: in resume mode it is read by Start
 		switch rng.Intn(6) {
-		case 0: // a bad block somewhere (not first in resume mode)
+		case 0: // a bad block somewhere after the first
 			i := 1 + rng.Intn(len(f.Items)-1)
 			f.Items[i] = Item{Kind: KBad}
-		case 1:
+		case 1: // the last block is cut off
 			f.Trunc = 1 + rng.Intn(3)
 			if f.Items[len(f.Items)-1].Kind == KBlock && f.Items[len(f.Items)-1].N == 0 {
 				f.Items[len(f.Items)-1].N = 2
